@@ -174,7 +174,13 @@ func ruleRegistry(c *Ctx, r *Rep) {
 				// opening of the same backend must see a key that was put into the file in between)
 				if mu, isMU := ins.(*ssa.MapUpdate); isMU {
 					vo := strings.Join(pv.Origins(mu.Value), ",") + "," + strings.Join(pv.Contents(mu.Value), ",")
-					if strings.Contains(vo, "ReadPem(") || strings.Contains(vo, "importPem(") {
+					// a profile read from a file replaces what was known under that name (the same backend opened again
+					// must see an edited profile)
+					isProfile := false
+					if pt, ok := mu.Value.Type().Underlying().(*types.Pointer); ok {
+						isProfile = strings.HasSuffix(typeShort(c, pt.Elem()), "config.CertificateProfile")
+					}
+					if strings.Contains(vo, "ReadPem(") || strings.Contains(vo, "importPem(") || (isProfile && strings.Contains(vo, "ParseConfig")) {
 						for _, gd := range guardsOf(b) {
 							cond := gd.Cond
 							if u, isNot := cond.(*ssa.UnOp); isNot && u.Op == token.NOT {
